@@ -13,7 +13,8 @@ Step ==
   /\ l <= Len(Traces[tid].ev) /\ l' = l + 1 /\ UNCHANGED tid
   /\ \/ Ev.ev = "reg" /\ C!Register([all |-> B(Ev.all), den |-> {Ev.den[k] : k \in 1..Len(Ev.den)}, out |-> B(Ev.out), raises |-> B(Ev.raises)])
      \/ Ev.ev = "unreg" /\ C!Unregister(Ev.k)
-     \/ Ev.ev = "tg" /\ C!Process(Ev.dst, B(Ev.outgoing)) /\ called' = Ev.called /\ devices' = B(Ev.devices)
+     \/ Ev.ev = "tg" /\ Ev.sendfail = 0 /\ C!Process(Ev.dst, B(Ev.outgoing)) /\ called' = Ev.called /\ devices' = B(Ev.devices)
+     \/ Ev.ev = "tg" /\ Ev.sendfail = 1 /\ C!Dropped /\ called' = Ev.called /\ devices' = B(Ev.devices)
 TSpec == TInit /\ [][Step]_vars
 Mark == /\ TLCSet(2, [TLCGet(2) EXCEPT ![tid] = IF @ < l THEN l ELSE @])
         /\ (l = Len(Traces[tid].ev) + 1 => TLCSet(1, TLCGet(1) \cup {tid}))
